@@ -308,6 +308,10 @@ pub fn sp_honest<const N: usize>(
         let mut f: Vec<Scalar> = (0..nones + 2).map(|_| crate::gen::rand_scalar(&mut ctx.prng)).collect();
         f.push(r);
         rng.force_scalars(&f);
+    } else if !ctx.forced_next.is_empty() {
+        // caller-prescribed first draws (e.g. a blinding factor solved against the secret key)
+        let f = std::mem::take(&mut ctx.forced_next);
+        rng.force_scalars(&f);
     }
     let builder = SignatureProofBuilder::<N>::generate_proof_commitments(&mut rng, wire::msg::<N>(ms), *sig, opts, pk);
     let ts = builder.conjunction_commitment_scalars().to_vec();
